@@ -51,6 +51,12 @@ theorem rebuildAP_setBefore {e : Expr} (he : e.before = []) {bf : List Trivia} (
   | binding n v g b a =>
     simp only [Expr.before] at he; subst he
     simp [Expr.setBefore, Expr.rebuildAP, fmtP_nil]
+  | paren v lg tg lb tb b a =>
+    simp only [Expr.before] at he; subst he
+    simp [Expr.setBefore, Expr.rebuildAP, addTriviaP, fmtP_nil]
+  | app n x g fa b a =>
+    simp only [Expr.before] at he; subst he
+    simp [Expr.setBefore, Expr.rebuildAP, addTriviaP, fmtP_nil]
 
 theorem rebuildA_setBefore {e : Expr} (he : e.before = []) {bf : List Trivia} (h : bf.all Trivia.isLayout = true)
     (na : Bool) (i : Nat) (inl : Bool) :
@@ -97,6 +103,12 @@ theorem rebuildAP_addAfter_emptyLine {e : Expr} (he : e.effAfter false = []) (i 
       (Expr.binding n v g b []).rebuildAP false i inl ++ [.ws ['\n'], .ws ['\n']]
     simp only [Expr.rebuildAP, h1, List.nil_append, Bool.false_eq_true, if_false]
     simp [bindingTailP, trailP_nil, trailP_emptyLine]
+  | paren v lg tg lb tb b a =>
+    simp only [Expr.effAfter, Bool.false_eq_true, if_false] at he; subst he
+    simp [Expr.addAfter, Expr.setAfter, Expr.after, Expr.rebuildAP, addTriviaP, trailP_emptyLine, trailP_nil]
+  | app n x g fa b a =>
+    simp only [Expr.effAfter, Bool.false_eq_true, if_false] at he; subst he
+    simp [Expr.addAfter, Expr.setAfter, Expr.after, Expr.rebuildAP, addTriviaP, trailP_emptyLine, trailP_nil]
 
 def spacesIf (inl : Bool) (i : Nat) : Text := if inl then [] else spaces i
 
@@ -239,6 +251,24 @@ theorem set_flatten_solid (a : Bool) (b : Text) (x : Items) (y : Text) : solidT 
     ((if a = true then ['r', 'e', 'c'] ++ b else []) ++ '{' :: x.flatten ++ y) ++ ['}'] from by simp]
   exact solidT_snoc _ _ (by decide)
 
+theorem solidT_append_left' (a : Text) {b : Text} (h : solidT b) : solidT (a ++ b) := by
+  refine ⟨fun e => h.1 (List.append_eq_nil_iff.mp e).2, ?_⟩
+  rw [endsWithNL_append_of_ne_nil _ _ h.1]; exact h.2
+
+/-- the text of a well-formed tree is non-empty and does not end in a line break -/
+theorem flatten_solid : ∀ (c : Cst), c.wf = true → solidT c.flatten
+  | .leaf k t, h => by simp only [Cst.flatten]; exact (leaf_spec h).2
+  | .list its cg, _ => list_flatten_solid _ _
+  | .set r rg its cg, _ => set_flatten_solid _ _ _ _
+  | .paren its cg, _ => by
+    simp only [Cst.flatten]
+    rw [show ('(' :: its.flatten ++ cg ++ [')']) = ('(' :: its.flatten ++ cg) ++ [')'] from by simp]
+    exact solidT_snoc _ _ (by decide)
+  | .app f cs g a, h => by
+    simp only [Cst.wf, Bool.and_eq_true] at h
+    simp only [Cst.flatten]
+    exact solidT_append_left' _ (flatten_solid a h.2)
+
 /-- leaf texts and the normalised containers are non-empty and do not end in a line break -/
 theorem norm_flatten_solid : ∀ (c : Cst) (i : Nat), c.wf = true → solidT (c.norm i).flatten
   | .leaf k t, i, h => by
@@ -252,6 +282,8 @@ theorem norm_flatten_solid : ∀ (c : Cst) (i : Nat), c.wf = true → solidT (c.
     simp only [Cst.norm]
     repeat' split
     all_goals exact set_flatten_solid _ _ _ _
+  | .paren its cg, i, h => by simp only [Cst.norm]; exact flatten_solid _ h
+  | .app f cs g a, i, h => by simp only [Cst.norm]; exact flatten_solid _ h
 
 /-- what the tree normaliser writes between `=` and the value, and the value -/
 def valueNorm (g2 : Text) (v : Cst) (j : Nat) : Text :=
@@ -700,7 +732,7 @@ theorem cst_rt : (c : Cst) → c.wf = true → c.cf = true →
             simp only [List.append_assoc, List.cons_append, List.nil_append, hj']
             cases inl <;> cases isRec <;> simp [spacesIf, Cst.flatten, List.append_assoc]
 theorem items_rt : (its : Items) → ∀ (m : Mode) (cg : Text) (st st' : SeqSt), its.wf m cg = true → its.cf = true →
-    its.parseSeq m st = .ok st' → m ≠ .file → InvS st its →
+    its.parseSeq m st = .ok st' → (m = .list ∨ m = .set) → InvS st its →
     (∀ j, rendML st'.items j = rendML st.items j ++ (its.normML j).flatten) ∧
     (containsNL its.flatten = false → ∀ j, rendFlat st'.items j = rendFlat st.items j ++ (its.normFlat j).flatten) ∧
     AllAfterNil st'.items ∧
@@ -722,7 +754,8 @@ theorem items_rt : (its : Items) → ∀ (m : Mode) (cg : Text) (st st' : SeqSt)
         simp only [List.mem_singleton] at hx; subst hx
         rw [effAfter_setBefore]; exact effAfter_of_parsed henb hea), Or.inr ⟨rfl, rfl⟩⟩
     cases m with
-    | file => exact absurd rfl hm
+    | file => rcases hm with h | h <;> cases h
+    | paren => rcases hm with h | h <;> cases h
     | set => cases hp
     | list =>
       simp only at hp
